@@ -21,6 +21,11 @@ Oracle (independent reading of the property over what the implementation did): s
 There is no class of "tolerated" deviations: a server is conforming (both bodies intact), violates
 a sequencing rule (the request ends with an aiocoap error), or ends the transfer with ONE response
 that is complete in CoAP terms (the caller gets exactly that response, nothing more is uploaded).
+A SUCCESSFUL response without Block1 option to a non-final block is a sequencing violation (until
+round 4 it had been put into the third class: a mistake of the verification, withdrawn).
+Requests are also sent with the application's size hint `block2=(0, False, szx)` (modelled:
+`Cfg.hint2`) and with the deprecated `block1=(0, False, szx)` hint (oracle only: the driver
+answers out-of-model).
 """
 import asyncio
 import logging
@@ -30,13 +35,19 @@ import c05_refserver as ref
 
 RULE = ("Cases = (request body length, response body length, client maximum size exponent, "
         "maximum payload size, per-exchange size exponents chosen by the reference server, "
-        "optional deviation of the server, optional Observe:0 in the request). Corpus first; then the full "
+        "optional deviation of the server, optional Observe:0 in the request, optional size hints block2=(0,0,szx) / "
+        "block1=(0,0,szx) preset by the application). Corpus first; then the full "
         "boundary table: body lengths "
         "0,1,15,16,17,...,1023,1024,1025,1123,1124,1125,2047,2048,2049,multi-kB x client szx 0..6 "
         "x reduction schedules for uploads and x server szx 0..6 x client szx for downloads, every "
-        "deviation kind (27: 16 sequencing violations incl. 2.31 without Block1 and a Block2 block larger than "
-        "requested, 6 single complete responses that end the transfer, 3 harmless oddities incl. Observe in an "
-        "intermediate 2.31, silence) at first/middle/last position, requests with Observe:0 whose upload needs "
+        "deviation kind (27: 17 sequencing violations incl. 2.31 without Block1, a Block2 block larger than "
+        "requested and a first block larger than the application's hint, 6 single complete responses that end the "
+        "transfer - a response without Block1 option being a violation when it is successful and answers a non-final "
+        "block -, 3 harmless oddities incl. Observe in an "
+        "intermediate 2.31, silence) at first/middle/last position; no-Block1 responses with codes "
+        "2.01/2.04/2.05/4.08/4.13/5.00 to block 0 / the middle / the last block of 3 and to a one-block request "
+        "with Block1 hint; Block2 hints 0..6 x first-response exponent below/equal/above the hint x one-block and "
+        "multi-block representations x with/without upload; requests with Observe:0 whose upload needs "
         "several blocks x server putting Observe into the n-th / every 2.31 / the final response, "
         "BlockwiseTuple arithmetic on all "
         "(szx, max) pairs; then random cases from the seeded PRNG (lengths drawn around block "
@@ -44,8 +55,10 @@ RULE = ("Cases = (request body length, response body length, client maximum size
         "block exchanges happened; distinct by the full case description.")
 TRUSTED = ["harness/c05_refserver.py (independent RFC 7959 reference server) and the fake "
            "RequestInterface/EndpointAddress of harness/props/C05.py"]
-ASSUMPTIONS = ["size exponent 7 (BERT) does not occur (UDP); the application "
-               "does not preset Block1/Block2 options",
+ASSUMPTIONS = ["size exponent 7 (BERT) does not occur (UDP); the application presets no Block options other than "
+               "the size hints block2=(0, False, szx) (modelled) and block1=(0, False, szx) (deprecated; oracle only, "
+               "never with an empty body: _extract_block raises BadRequest on it) - a request that asks for a "
+               "particular block of the response itself is not generated",
                "requests carrying Observe:0 are run through the same correspondence and oracle (the Lean client "
                "machine has no Observe option: it claims that the option has no influence on the block requests "
                "and on the response, which is what is compared); what an observation delivers AFTER the first "
@@ -162,6 +175,10 @@ class World:
                            uri_path=("c05", "res"))
         if case.get("observe"):
             msg.opt.observe = 0
+        if case.get("hint2") is not None:      # the application asks for blocks of at most this size
+            msg.opt.block2 = (0, False, case["hint2"])
+        if case.get("hint1") is not None:      # the deprecated way of choosing the Block1 size
+            msg.opt.block1 = (0, False, case["hint1"])
         msg.remote = self.Remote(case["szx0"], case["mps"])
         self.stalled = self.loop.create_future()
         request = self.ctx.request(msg)
@@ -226,9 +243,14 @@ def soutcome(o):
     return "pending"
 
 
+def shint(h):
+    return "-" if h is None else "%d" % h
+
+
 def r_line(case, obs):
-    return "C05 R %s %d %d %s" % (hx(ref.pattern(case["plen"], case["pseed"])), case["szx0"],
-                                  case["mps"], " ".join(sreply(r) for r in obs["replies"]))
+    return "C05 R %s %d %d %s %s %s" % (hx(ref.pattern(case["plen"], case["pseed"])), case["szx0"],
+                                        case["mps"], shint(case.get("hint1")), shint(case.get("hint2")),
+                                        " ".join(sreply(r) for r in obs["replies"]))
 
 
 def r_out(obs):
@@ -236,8 +258,9 @@ def r_out(obs):
 
 
 def i_line(case, obs):
-    return "C05 I %s %d %d %s %s %d %s" % (
+    return "C05 I %s %d %d %s %s %s %s %d %s" % (
         hx(ref.pattern(case["plen"], case["pseed"])), case["szx0"], case["mps"],
+        shint(case.get("hint1")), shint(case.get("hint2")),
         hx(ref.pattern(case["rlen"], case["rseed"])),
         "n" if case["etag"] is None else "e" + case["etag"], case["code"],
         " ".join("%d.%d" % (c[0], 1 if c[1] else 0) for c in obs["server"].used_choices))
@@ -271,16 +294,23 @@ def oracle(case, obs):
     # --- block options on the wire (whatever the server does, the client's requests must be
     # consistent): Block1 phase
     off = 0
-    last_szx = case["szx0"]
-    b1_reqs = [v for v in obs["reqs"] if v[1] is None]
-    b2_reqs = [v for v in obs["reqs"] if v[1] is not None]
+    hint1, hint2 = case.get("hint1"), case.get("hint2")
+    last_szx = case["szx0"] if hint1 is None else hint1
+    # upload phase: the requests that do not ask for a LATER block of the response (no Block2 option, or the
+    # application's size hint, which has block number 0)
+    b1_reqs = [v for v in obs["reqs"] if v[1] is None or v[1][0] == 0]
+    b2_reqs = [v for v in obs["reqs"] if v[1] is not None and v[1][0] != 0]
     if obs["reqs"][:len(b1_reqs)] != b1_reqs:
         return "a Block1-phase request was sent after the Block2 phase began", "wire:phase-order"
+    want_b2 = None if hint2 is None else (0, False, hint2)
     for i, (b1, b2, size1, data, code, path, observe) in enumerate(b1_reqs):
         if code != method or path != ("c05", "res"):
             return "block request %d does not repeat method/Uri-Path" % i, "wire:method-path"
+        if b2 != want_b2:
+            return ("request %d of the upload phase carries Block2 %r, the application's request %r"
+                    % (i, b2, want_b2)), "wire:b1-hint"
         if b1 is None:
-            if len(b1_reqs) != 1 or data != payload:
+            if len(b1_reqs) != 1 or data != payload or hint1 is not None:
                 return "unfragmented request is not the whole payload", "wire:unfragmented"
             off = len(data)
             continue
@@ -322,10 +352,12 @@ def oracle(case, obs):
                     % (i, num, 16 << szx, num * (16 << szx), got)), "wire:b2-offset"
         if prior[-1].block2 is not None and szx > prior[-1].block2[2]:
             return "Block2 request %d: exponent %d above the server's last %d" % (i, szx, prior[-1].block2[2]), "wire:b2-szx-above-server"
-        # "the size exponent never grows", literally, along the client's own Block2 requests
-        if i > 0 and szx > b2_reqs[i - 1][1][2]:
-            return ("Block2 request %d: size exponent grew from %d to %d"
-                    % (i, b2_reqs[i - 1][1][2], szx)), "wire:b2-szx-grows"
+        # "the size exponent never grows", literally, along the Block2 options of ALL the client's requests: the
+        # application's size hint on the request(s) of the upload phase comes first
+        before = b2_reqs[i - 1][1][2] if i > 0 else hint2
+        if before is not None and szx > before:
+            return ("Block2 request %d: size exponent grew from %d%s to %d"
+                    % (i, before, "" if i > 0 else " (the size hint of the first request)", szx)), "wire:b2-szx-grows"
         if observe is not None:
             return "Block2 request %d for a later block carries an Observe option" % i, "wire:b2-observe"
     if case.get("observe"):
@@ -335,6 +367,10 @@ def oracle(case, obs):
 
     # --- bodies
     etag = None if case["etag"] is None else bytes.fromhex(case["etag"])
+    # what the deviation amounts to: for most kinds that is fixed, for `ignore_block1` it depends on the block it hit
+    # and on the code (the reference server says which: c05_refserver.py)
+    must_error = kind in ref.MUST_ERROR or (kind == "ignore_block1" and srv.klass == "error")
+    exact = kind in ref.EXACT_REPLY and not must_error
     if kind in ref.MUST_SUCCEED or not srv.triggered:
         # a conforming server (possibly with harmless oddities): both bodies intact
         if out[0] != "ok":
@@ -348,7 +384,7 @@ def oracle(case, obs):
         if out[1] != case["code"] or out[2] != etag:
             return "returned code/ETag %r differ from the server's" % (out[1:3],), "response-meta-differs"
         return "", None
-    if kind in ref.MUST_ERROR:
+    if must_error:
         if out[0] == "ok":
             what = "the server's body" if out[3] == rep else (
                 "a strict prefix" if rep.startswith(out[3]) else
@@ -358,7 +394,7 @@ def oracle(case, obs):
         if out[0] == "pending":
             return "server misbehaved (%s) and the request neither failed nor finished" % kind, "misbehaviour-hangs:" + kind
         return "", None
-    if kind in ref.EXACT_REPLY:
+    if exact:
         # the server ended the transfer with ONE response that is complete by itself (see c05_refserver.py for
         # what each kind is).  The caller gets exactly that response: its code, its ETag, its payload -- not the
         # representation assembled so far, not a combination; and nothing more is uploaded after it.
@@ -369,8 +405,12 @@ def oracle(case, obs):
             return ("the server ended the transfer with the response (code %d, ETag %r, %d bytes) (%s) but the caller "
                     "got (code %d, ETag %r, %d bytes)" % (srv.expected[0], srv.expected[1], len(srv.expected[2]), kind,
                                                          out[1], out[2], len(out[3]))), "single-response-altered:" + kind
-        if kind in ref.ENDS_UPLOAD and any(v[1] is None for v in obs["reqs"][srv.trigger_index + 1:]):
+        if kind in ref.ENDS_UPLOAD and any(v[1] is None or v[1][0] == 0 for v in obs["reqs"][srv.trigger_index + 1:]):
             return "the upload went on after the server's final answer (%s)" % kind, "upload-continued:" + kind
+        if kind == "ignore_block1" and srv.hit_final and is_success(srv.expected[0]) and srv.recorded != [payload]:
+            # only the echo of the final block's option was missing: the body had been sent completely
+            return ("server reassembled %s, not the %d-byte payload handed to the API"
+                    % ([len(b) for b in srv.recorded], len(payload))), "request-body-differs"
         return "", None
     if kind == "stall":
         if out[0] != "pending":
@@ -379,12 +419,16 @@ def oracle(case, obs):
     raise HarnessError("oracle has no rule for server kind %r" % (kind,))
 
 
+def is_success(code):
+    return 64 <= code < 96
+
+
 # ------------------------------------------------------------------------------------------
 # case generation
 # ------------------------------------------------------------------------------------------
 def mk(plen=0, rlen=0, szx0=6, mps=1124, choices=(), default=(6, False), etag="c0ffee", code=69,
        mis=None, limit=None, pseed=1, rseed=2, method="PUT", fresh_remote=True, observe=False,
-       obs_final=None):
+       obs_final=None, hint1=None, hint2=None):
     c = {"plen": plen, "pseed": pseed, "rlen": rlen, "rseed": rseed, "etag": etag, "code": code,
          "szx0": szx0, "mps": mps, "choices": [list(x) for x in choices], "default": list(default),
          "method": method, "fresh_remote": fresh_remote}
@@ -397,6 +441,10 @@ def mk(plen=0, rlen=0, szx0=6, mps=1124, choices=(), default=(6, False), etag="c
         c["mis"] = mis
     if limit is not None:
         c["limit"] = limit
+    if hint2 is not None:
+        c["hint2"] = hint2           # the application's request carries block2=(0, False, hint2)
+    if hint1 is not None:
+        c["hint1"] = hint1           # ... carries block1=(0, False, hint1) (deprecated size hint; oracle only)
     if observe:
         c["observe"] = True          # the application request carries Observe:0
         if obs_final is not None:
@@ -491,6 +539,43 @@ def boundary_cases():
             for code in (136, 141, 128, 160):
                 cases.append(mk(plen=L, rlen=7, szx0=szx0, default=(szx0, False), code=68,
                                 mis={"kind": "fail_mid_noopt", "n": n, "code": code, "diag": n * 5}))
+    # a response WITHOUT Block1 option to block 0 of 3 (or more) / a middle block / the last block, and to a request
+    # of one block that carries the deprecated Block1 size hint (it goes out as Block1 (0, M=0, szx)); codes
+    # 2.01 / 2.04 / 2.05 / 4.08 / 4.13 / 5.00: an error for a successful code before the end of the body, otherwise
+    # exactly that response
+    for code in (65, 68, 69, 136, 141, 160):
+        for (L, szx0, h1) in ((48, 0, None), (3072, 6, None), (2049, 5, None), (33, 1, None), (40, 6, 0), (1124, 6, 6),
+                              (1125, 6, 5), (10, 6, 2), (16, 3, 0), (1024, 2, 6)):
+            one_block = h1 is not None and L <= (16 << h1)
+            for n in ((0,) if one_block else (0, 1, 2)):
+                cases.append(mk(plen=L, rlen=100 if code == 69 else 7, szx0=szx0, default=(6, False), code=68,
+                                hint1=h1, mis={"kind": "ignore_block1", "n": n, "code": code, "diag": n * 3}))
+    # the application's size hint block2=(0, 0, h), h = 0..6: a conforming server whose own preference lies below /
+    # at / above the hint (it uses the smaller of the two); a server whose FIRST block comes at hint+1 / at 6,
+    # with the more flag (large representation) and without (a one-block representation labelled explicitly);
+    # without upload, with a block-wise upload (every block request carries the hint), with a one-message body
+    for h in range(7):
+        for (L, R, szx0, method) in ((0, 100, 6, "GET"), (0, 5, 6, "GET"), (0, 3000, 6, "GET"), (0, 1025, 2, "GET"),
+                                     (100, 100, 0, "POST"), (3072, 1500, 6, "PUT"), (10, 40, 6, "FETCH")):
+            if R // (16 << min(h, szx0)) > 70:
+                continue
+            for ssz in sorted({max(0, h - 1), h, min(6, h + 1), 6}):
+                for explicit in (False, True):
+                    cases.append(mk(plen=L, rlen=R, szx0=szx0, default=(ssz, explicit), method=method, hint2=h,
+                                    code=69 if method in ("GET", "FETCH") else 68))
+            if h < 6:
+                for by in (1, 6):
+                    for explicit in (False, True):
+                        cases.append(mk(plen=L, rlen=R, szx0=szx0, default=(6, explicit), method=method, hint2=h,
+                                        mis={"kind": "first_above_hint", "n": 0, "by": by}))
+        # the hint and a later reduction / a block larger than requested later on / Observe:0
+        cases.append(mk(plen=0, rlen=700, szx0=6, choices=((6, False), (6, False), (0, False)), default=(0, False),
+                        method="GET", hint2=h))
+        if h < 6:
+            cases.append(mk(plen=0, rlen=700, szx0=6, default=(h, False), method="GET", hint2=h,
+                            mis={"kind": "b2_szx_grows", "n": 1, "by": 1}))
+        cases.append(mk(plen=100, rlen=200, szx0=2, default=(6, False), method="FETCH", hint2=h, observe=True,
+                        obs_final=3))
     # a Block2 block larger than requested, wherever the offset allows it (the audit's input first: 400 bytes,
     # requests at szx 0, the block at offset 64 comes as a 64-byte block)
     for by in (1, 2, 3, 6):
@@ -604,6 +689,11 @@ def random_case(rng):
             if kind == "fail_mid_noopt":
                 mis["code"] = rng.choice([136, 141, 128, 160])
                 mis["diag"] = rng.randrange(0, 11)
+            if kind == "ignore_block1" and rng.random() < 0.7:
+                mis["code"] = rng.choice([65, 68, 69, 67, 136, 141, 160, 128])
+                mis["diag"] = rng.randrange(0, 8)
+            if kind == "first_above_hint":
+                mis["by"] = rng.choice([1, 1, 2, 6])
             if kind == "observe_continue":
                 mis["oval"] = rng.choice([0, 1, 7, 1 << 23])
                 if rng.random() < 0.4:
@@ -612,7 +702,20 @@ def random_case(rng):
     method = rng.choice(["PUT", "POST", "FETCH", "GET"])
     if observe:
         method = "FETCH" if plen else "GET"
-    return mk(observe=observe, obs_final=rng.choice([None, None, 1, 77]),
+    # size hints preset by the application
+    hint1 = hint2 = None
+    if mis and mis["kind"] == "first_above_hint":
+        hint2 = rng.randrange(6)
+    elif rng.random() < 0.15:
+        hint2 = rng.randrange(7)
+    if hint2 is not None:
+        while rlen // (16 << min(hint2, ssz, szx0)) > 160:
+            rlen //= 2
+    if plen and rng.random() < 0.04:
+        hint1 = rng.randrange(7)
+        while plen // (16 << hint1) > 160:
+            plen //= 2
+    return mk(observe=observe, hint1=hint1, hint2=hint2, obs_final=rng.choice([None, None, 1, 77]),
               plen=plen, rlen=rlen, szx0=szx0, mps=rng.choice([1124, 1124, 1124, 1024, 1200]),
               choices=choices, default=(min(cur, ssz), rng.random() < 0.3),
               etag=rng.choice([None, "01", "c0ffee", "0102030405060708"]),
@@ -672,6 +775,17 @@ def run(env, rep):
                     rep.count("triggered:" + kind)
             rep.count("outcome=" + (obs["outcome"][0] if obs["outcome"][0] != "err" else "err:" + obs["outcome"][1]))
             rep.count("client-szx=%d" % case["szx0"])
+            if case.get("hint2") is not None:
+                first = next((r.block2[2] for r in obs["replies"] if r.block2 is not None and r.block2[0] == 0), None)
+                rep.count("block2-hint:first-block=" + ("none" if first is None else "below" if first < case["hint2"]
+                                                        else "equal" if first == case["hint2"] else "above"))
+            if case.get("hint1") is not None:
+                rep.count("block1-hint(oracle-only)")
+            if kind == "ignore_block1" and obs["server"].triggered:
+                rep.count("no-block1-response:%s:%s->%s" % (
+                    "final" if obs["server"].hit_final else "non-final",
+                    "success" if is_success(obs["server"].mis.get("code", case["code"])) else "failure",
+                    obs["server"].klass))
             if case.get("observe"):
                 rep.count("request-with-observe:final=" + ("observable" if case.get("obs_final") is not None else "plain"))
                 if any(r.observe is not None and r.code == ref.CONTINUE for r in obs["replies"]):
@@ -707,7 +821,10 @@ def run(env, rep):
         for need in (["server=conforming", "upload-size-reduced-midway", "download-size-reduced-midway",
                       "upload=unfragmented", "upload=blockwise", "download=single", "download=blockwise",
                       "request-with-observe:final=observable", "request-with-observe:final=plain",
-                      "observe-in-intermediate-2.31"]
+                      "observe-in-intermediate-2.31", "block2-hint:first-block=below", "block2-hint:first-block=equal",
+                      "block2-hint:first-block=above", "block1-hint(oracle-only)",
+                      "no-block1-response:non-final:success->error", "no-block1-response:non-final:failure->exact",
+                      "no-block1-response:final:success->exact", "no-block1-response:final:failure->exact"]
                      + ["triggered:" + k for k in ref.KINDS]):
             if not rep.hist.get(need):
                 raise HarnessError("generator never produced " + need)
